@@ -30,6 +30,11 @@ pub struct TxCfg {
     pub ts: bool,
     /// the peer's SYN carries a timestamp option (and so does every later segment of the peer)
     pub peer_ts: bool,
+    /// alphabet includes writes / timer ticks during which the device refuses every frame
+    pub bp: bool,
+    /// congestion controller: 0 none (the window is the only limit), 1 Reno, 2 CUBIC. (With the
+    /// reno/cubic cargo features on, a fresh socket defaults to CUBIC, so this is set explicitly.)
+    pub cc: u8,
 }
 
 #[derive(Clone, Debug, PartialEq)]
@@ -41,6 +46,11 @@ pub enum TxEv {
     AppWrite,
     AppClose,
     Tick,
+    /// application write followed by a poll during which the device refuses every frame; the
+    /// device accepts again afterwards (nothing is polled then)
+    AppWriteBlocked,
+    /// a timer tick during which the device refuses every frame
+    TickBlocked,
 }
 
 pub struct Tx {
@@ -79,6 +89,9 @@ impl Tx {
             None | Some(0) => 536,
             Some(m) => m.max(48),
         };
+        if self.cfg.peer_ws.map_or(false, |s| s >= 8) {
+            return vec![0, 1, 1, 1, 2]; // scaled by 2^14: 0, 16 KiB, 32 KiB
+        }
         vec![0, 1, 2, mss, 1000]
     }
     fn observe(&mut self, frames: Vec<Vec<u8>>) {
@@ -122,6 +135,11 @@ impl Harness for Tx {
         if cfg.ts {
             w.sock().set_tsval_generator(Some(|| 0x0a0b0c0d));
         }
+        w.sock().set_congestion_control(match cfg.cc {
+            1 => smoltcp::socket::tcp::CongestionControl::Reno,
+            2 => smoltcp::socket::tcp::CongestionControl::Cubic,
+            _ => smoltcp::socket::tcp::CongestionControl::None,
+        });
         let mut t = Tx {
             cfg: cfg.clone(),
             mon: SenderMon::default(),
@@ -169,8 +187,11 @@ impl Harness for Tx {
             t.deliver(build_seg(p, None, wc::TCP_SYN, 1000, &opts, &[]));
             let iss = t.mon.iss.unwrap_or(0);
             t.last_ack = iss.wrapping_add(1);
-            let a = build_seg(p.wrapping_add(1), Some(t.last_ack), 0, 1000, if cfg.peer_ts { &TS_OPT } else { &[] }, &[]);
-            t.acks_sent.push((t.last_ack, 1000));
+            // with a large peer shift the handshake ACK's window field is small, so that the
+            // highest right edge the socket is ever given stays below the amount of data queued
+            let hs_win: u16 = if cfg.peer_ws.map_or(false, |s| s >= 8) { 1 } else { 1000 };
+            let a = build_seg(p.wrapping_add(1), Some(t.last_ack), 0, hs_win, if cfg.peer_ts { &TS_OPT } else { &[] }, &[]);
+            t.acks_sent.push((t.last_ack, hs_win));
             t.deliver(a);
         } else {
             assert!(w.connect());
@@ -200,10 +221,16 @@ impl Harness for Tx {
         }
         if self.written < self.data.len() {
             v.push((TxEv::AppWrite, 0));
+            if self.cfg.bp {
+                v.push((TxEv::AppWriteBlocked, 0));
+            }
         } else if !self.closed {
             v.push((TxEv::AppClose, 0));
         }
         v.push((TxEv::Tick, 0));
+        if self.cfg.bp {
+            v.push((TxEv::TickBlocked, 0));
+        }
         v
     }
     fn apply(&mut self, ev: &TxEv, out: &mut Vec<Viol>) {
@@ -237,6 +264,32 @@ impl Harness for Tx {
                 }
                 let f = self.w.poll();
                 self.observe(f);
+            }
+            TxEv::AppWriteBlocked => {
+                let n = self.cfg.chunk.min(self.data.len() - self.written);
+                let d = self.data[self.written..self.written + n].to_vec();
+                if let Ok(k) = self.w.sock().send_slice(&d) {
+                    self.written += k;
+                }
+                self.w.dev.tx_budget = Some(0);
+                let f = self.w.poll();
+                self.w.dev.tx_budget = None;
+                if !f.is_empty() {
+                    self.pending.push(Viol::new("MACHINERY/blocked-device-transmitted", format!("{} frames", f.len())));
+                }
+            }
+            TxEv::TickBlocked => {
+                if let Some(t) = self.w.poll_at() {
+                    if t > self.w.now {
+                        self.w.now = t;
+                    }
+                    self.w.dev.tx_budget = Some(0);
+                    let f = self.w.poll();
+                    self.w.dev.tx_budget = None;
+                    if !f.is_empty() {
+                        self.pending.push(Viol::new("MACHINERY/blocked-device-transmitted", format!("{} frames", f.len())));
+                    }
+                }
             }
             TxEv::AppClose => {
                 self.w.sock().close();
@@ -279,7 +332,7 @@ impl Harness for Tx {
 pub fn tx_configs(tier: Tier) -> Vec<(TxCfg, usize)> {
     let (mut d, dbig) = if tier == Tier::Quick { (6, 2) } else { (8, 3) };
     if let Ok(x) = std::env::var("TX_D") { d = x.parse().unwrap(); }
-    let base = TxCfg { name: "base", tx: 64, rx: 64, len: 40, chunk: 16, peer_mss: Some(100), peer_ws: None, server: true, mtu: 1500, peer_isn: 0xffff_fff0, reuse: false, ts: false, peer_ts: false };
+    let base = TxCfg { name: "base", tx: 64, rx: 64, len: 40, chunk: 16, peer_mss: Some(100), peer_ws: None, server: true, mtu: 1500, peer_isn: 0xffff_fff0, reuse: false, ts: false, peer_ts: false, bp: false, cc: 0 };
     vec![
         (base.clone(), d),
         (TxCfg { name: "mss-absent", peer_mss: None, len: 30, chunk: 30, ..base.clone() }, d),
@@ -296,6 +349,14 @@ pub fn tx_configs(tier: Tier) -> Vec<(TxCfg, usize)> {
         // largest window: the peer's window field must be read with the PEER's shift
         (TxCfg { name: "bigrx-peer-ws0-len2500", rx: 70000, tx: 4096, len: 2500, chunk: 2500, peer_mss: Some(536), peer_ws: Some(0), ..base.clone() }, dbig + 1),
         (TxCfg { name: "bigrx-client-peer-ws1-len2500", rx: 300000, tx: 4096, len: 2500, chunk: 2500, peer_mss: Some(536), peer_ws: Some(1), server: false, ..base.clone() }, dbig + 1),
+        // congestion-controlled senders (the congestion window limits below the peer's window)
+        (TxCfg { name: "reno", cc: 1, tx: 256, len: 200, chunk: 100, peer_mss: Some(48), ..base.clone() }, d),
+        (TxCfg { name: "cubic", cc: 2, tx: 256, len: 200, chunk: 100, peer_mss: Some(48), ..base.clone() }, d),
+        // device back-pressure while the application writes / while timers fire
+        (TxCfg { name: "blocked-device", bp: true, tx: 128, len: 48, chunk: 16, ..base.clone() }, d.min(6)),
+        // window scale 14 / 15 (15 must be read as 14, RFC 7323) with more data than the real window
+        (TxCfg { name: "peer-ws14", peer_ws: Some(14), rx: 64, tx: 40000, len: 36000, chunk: 36000, peer_mss: Some(1460), ..base.clone() }, 3),
+        (TxCfg { name: "peer-ws15", peer_ws: Some(15), rx: 64, tx: 40000, len: 36000, chunk: 36000, peer_mss: Some(1460), ..base.clone() }, 3),
         // timestamps: 12 octets of options in every segment, which the MTU and MSS limits must absorb
         (TxCfg { name: "ts-mss-536-mtu-100", ts: true, peer_ts: true, peer_mss: Some(536), tx: 256, len: 200, chunk: 200, mtu: 100, ..base.clone() }, d),
         (TxCfg { name: "ts-mss-48-client", ts: true, peer_ts: true, peer_mss: Some(48), tx: 128, len: 100, chunk: 100, server: false, ..base.clone() }, d),
@@ -334,7 +395,7 @@ pub fn run(tier: Tier) -> i32 {
         }
     }
     crate::tcp2::explore_all(&mut rep, tier, &["C05/", "panic/"]);
-    rep.cov("rule", json!("part 1: monitor over every segment of every execution of the deviation-bounded tcp2 search; part 2: BFS with visited set over one real socket whose peer (the explorer) sends ACK in {dup, +1, middle, all} x window in {0,1,2,mss,1000}, replays stale ACKs, with peer MSS in {absent,0,1,47,48,100,536}, window scale in {absent,0,2}, receive buffers up to 70000, application write/close as explicit events and timer ticks"));
+    rep.cov("rule", json!("part 1: monitor over every segment of every execution of the deviation-bounded tcp2 search; part 2: BFS with visited set over one real socket whose peer (the explorer) sends ACK in {dup, +1, middle, all} x window in {0,1,2,mss,1000}, replays stale ACKs, with peer MSS in {absent,0,1,47,48,100,536}, window scale in {absent,0,1,2,14,15}, receive buffers up to 70000, application write/close as explicit events and timer ticks"));
     rep.finish()
 }
 
